@@ -634,12 +634,22 @@ def mon_C11(script, outs):
 def mon_C12(script, outs):
     fails = []
     prev = None
+    fs = None
+    want_inc = 0     # the increment the requested frequency means (0 until a frequency is set)
     for i, t, a, (sine, tri, _u, _d, _s) in lfo_rows(script, outs):
+        if t[0] == "lfo.new":
+            fs = unhx(t[1])
+        elif t[0] == "freq":
+            want_inc = expected_inc(fs, unhx(t[1]))
         if t[0] == "tick" and prev is not None:
             pa, ps, pt = prev
             inc = (a - pa) % 16777216
             if inc == 0 and (a != pa):
                 inc = 16777216
+            if want_inc is not None and want_inc <= 16777216:
+                # the phase step of this tick as requested; a counter that jumps (e.g. loses a phase that
+                # was just set) shows up as an output step far beyond what this increment allows
+                inc = want_inc
             step = inc / TWO24
             if abs(sine - ps) > 2 * math.pi * 1.002 * step + 2 * 2.0 ** -24:
                 fails.append((i, "sine jumped by %r for a phase step of %d/2^24 (from counter %d to %d)" % (abs(sine - ps), inc, pa, a)))
@@ -919,7 +929,7 @@ def mon_C13(script, outs):
             if not (lo - r <= y <= hi + r):
                 fails.append((i, "output %r leaves the range [%r, %r] of the inputs seen so far (resolution %r)" % (y, lo, hi, r)))
                 break
-            if cur_in is not None and x == cur_in[0] and co == cur_in[1]:
+            if cur_in is not None and x == cur_in[0] and (cur_in[1] is None or co == cur_in[1]):
                 run.append(y)
                 # monotone approach and no oscillation around the target (beyond the resolution)
                 if len(run) >= 3:
@@ -934,8 +944,10 @@ def mon_C13(script, outs):
                 run = [y]
             cur_in = (x, co)
         else:
-            cur_in = None
-            run = []
+            # a set_time call does not interrupt a constant-input run: with the new coefficients the
+            # distance to the target must keep shrinking (y - x = p' (y1 - x) when x1 = x)
+            if cur_in is not None:
+                cur_in = (cur_in[0], None)
     return fails
 
 
